@@ -233,8 +233,7 @@ def run_case(spec):
                 sl = slice(None if a is None else to_dt(a, sty), None if b is None else to_dt(b, sty))
                 r = guarded(lambda: cur[sl])
                 lit = f'OSlice {opt_lit(a)} {opt_lit(b)}'
-                if cur_obs:
-                    exp = ('Ok', [o[0] for o in cur_obs if (a is None or a <= o[1]) and (b is None or o[2] < b)])
+                exp = ('Ok', [o[0] for o in cur_obs if (a is None or a <= o[1]) and (b is None or o[2] < b)])
             elif kind == 'fdt':
                 d, sty = op[1], op[2]
                 r = guarded(lambda: cur.filter_by_dt(to_dt(d, sty)))
@@ -549,6 +548,12 @@ def main():
                                         ['slice', None, 100 * HOUR + 1, 'utc', 0], ['conv', 0],
                                         ['fij', tie, 0], ['fij', math.nextafter(tie, 0), 0], ['fij', 0.0, 0],
                                         ['conv', 1], ['fij', tie, 1], ['slice', 1, None, 'utc', 1]]}))
+    # D30 regression: Track([p@5us])[10us:20us][:] and the other open slices of an emptied track
+    one = [{'st': 5, 'en': 5, 'so': 'utc', 'eo': 'utc', 'pos': p0, 'kind': 'pt'}]
+    specs.append(('fixed', {'items': one, 'ops': [['slice', 10, 20, 'utc', 1], ['slice', None, None, 'utc', 0],
+                                                 ['slice', None, 7, 'utc', 0], ['slice', 3, None, 'naive', 0],
+                                                 ['slice', None, None, 'utc', 1], ['conv', 1], ['fij', 1.0, 0],
+                                                 ['add', one, 1], ['slice', None, None, 'utc', 1]]}))
     specs.append(('empty', {'items': [], 'ops': [['slice', None, None, 'utc', 0], ['slice', 5, None, 'utc', 0],
                                                  ['slice', None, 5, 'utc', 0], ['slice', 0, 5, 'utc', 0],
                                                  ['fij', 1.0, 0], ['conv', 0], ['fdt', 0, 'utc', 0],
@@ -603,20 +608,6 @@ def main():
             rep['property_clauses_violated'] = [list(f) for f in failing[i][:10]]
         ck.violation(rep)
         reported += 1
-
-    # deviation from the property's text outside its 1..30 quantifier but reachable by chains: an
-    # omitted slice bound on an EMPTY track raises (IndexError / ValueError) instead of returning
-    # the empty track.  The model is faithful (C17_slice_empty, C17_slice_open_empty_refuted).
-    # Deterministic replay; reported as KNOWN-FINDING only if KNOWN_FINDINGS.json lists it.
-    one = Track([GeoPoint(Coordinate(0, 0), dt=to_dt(5, 'utc'))])
-    emptied = one[to_dt(10, 'utc'):to_dt(20, 'utc')]
-    dev = guarded(lambda: emptied[:])
-    ck.cov['open_slice_on_empty_track'] = {'reproduces': dev[0] == 'Err', 'observed': dev[1] if dev[0] == 'Err' else 'Ok',
-                                           'seen_in_generated_chains': sum(1 for m in meta for st in m['steps']
-                                                                           if st['op'][0] == 'slice' and st['result'][0] == 'Err')}
-    for f in ck.findings:
-        if f.get('status') == 'open' and f.get('signature') == 'open_slice_on_empty_track' and dev[0] == 'Err':
-            ck.known(f)
 
     ck.finish(rule='seeded multisets of 1..30 time-bounded shapes (instants, short and long early-starting intervals, '
                    'duplicate starts/timestamps, mixed time zones, points and boxes) in every input order for <= 5 items '
